@@ -358,6 +358,7 @@ REWRITES_DOC = {
     'R18': '(fallback, only when a body contains closures the proof has no contract for) `E.map(|PAT| X)` -> `match E { Some(PAT) => Some(X), None => None }`: std\'s definition of Option::map with the closure literal beta-reduced; on a non-Option receiver the text does not type-check and the unit is undecided as before',
     'R19': 'an associated type of the implemented trait written out as the type the impl assigns to it (`Self::ValueIter` -> `ValueIter<\'a>`), where a trait impl is verified as inherent functions',
     'R20': 'total variant of a function that panics as documented: `E.unwrap()` -> `E.verif_unwrap_atomic(Ghost(CHK))`, `assert!(C, ..)` -> `verif_assert_atomic(C, Ghost(CHK))`: the models return only when no panic occurs and REQUIRE that the state named by CHK is unchanged when one does (C16: a refused call leaves the builder as it was)',
+    'R21': 'state-passing form of an `FnMut` closure that assigns one captured local (Verus has no closures capturing `&mut`): callee variant `F: FnMut(A) -> R` -> `F: Fn(A, S) -> (R, S)` with `verif_st: &mut S` and every call `f(X)` -> `({ let verif_sp = f(X, *verif_st); *verif_st = verif_sp.1; verif_sp.0 })`; caller `x.g(|p| { B })` -> `x.g_st(|p, verif_st_in: S| { let mut V = verif_st_in; B }, &mut V)` with `return E;` -> `return (E, V);` (the classical translation: the closure reads and writes V only through the threaded value, the callee stores it back after every call)',
     'R15': 'fully qualified `std::cmp::f` / `core::cmp::f` -> `cmp::f` (the path through the crate\'s own `use std::cmp;`; both name the function the model module cmp declares)',
     'R8': 'struct fields widened to pub inside the unit',
     'R1': 'doc comments / #[inline] / derives dropped',
@@ -790,6 +791,86 @@ def weave_fn(src, container, name, nth, opts, subs, mode, sig_only=False):
             if k:
                 rewrites['R7'] = rewrites.get('R7', 0) + k
     for kind, arg, lines in subs:
+        if kind == 'state_passing':
+            # R21 (callee side): `//@state_passing PARAM STY` - state-passing form of a function that takes an `FnMut` closure.  Verus has no
+            # closures that capture `&mut`; a closure that assigns ONE captured local is the same computation as a pure closure that takes the
+            # local's value and returns the new value next to its result (the classical state-passing translation of FnMut):
+            #   `F: FnMut(ARGS) -> RET` -> `F: Fn(ARGS, STY) -> (RET, STY)`,  `mut PARAM: F` -> `PARAM: F, verif_st: &mut STY`,
+            #   every call `PARAM(X)` -> `({ let verif_sp = PARAM(X, *verif_st); *verif_st = verif_sp.1; verif_sp.0 })`
+            prm_, sty_ = arg.split(None, 1)
+            sty_ = sty_.strip()
+            bo_ = Body(text).body_open()
+            sig_, body_ = text[:bo_], text[bo_:]
+            m_ = re.search(r'\bFnMut\(', sig_)
+            if not m_ or not re.search(r'\bmut\s+' + re.escape(prm_) + r'\s*:\s*\w+', sig_):
+                raise Undecided('anchor lost: no `FnMut` parameter `%s` in %s::%s' % (prm_, container, name))
+            d_, j_ = 0, m_.end()
+            while j_ < len(sig_):
+                if sig_[j_] == '(':
+                    d_ += 1
+                elif sig_[j_] == ')':
+                    if d_ == 0:
+                        break
+                    d_ -= 1
+                j_ += 1
+            mr_ = re.match(r'\s*->\s*([A-Za-z0-9_:]+)', sig_[j_ + 1:])
+            if not mr_:
+                raise Undecided('anchor lost: `FnMut` bound of %s::%s has no simple return type' % (container, name))
+            sig_ = sig_[:m_.start()] + 'Fn(' + sig_[m_.end():j_] + ', ' + sty_ + ') -> (' + mr_.group(1) + ', ' + sty_ + ')' + sig_[j_ + 1 + mr_.end():]
+            sig_ = re.sub(r'\bmut\s+' + re.escape(prm_) + r'(\s*:\s*\w+)', prm_ + r'\1, verif_st: &mut ' + sty_, sig_, count=1)
+            out_, pos_, k_ = [], 0, 0
+            cm_ = code_mask(body_)
+            for mc_ in re.finditer(r'(?<![A-Za-z0-9_.])' + re.escape(prm_) + r'\(', body_):
+                if mc_.start() < pos_ or not cm_[mc_.start()]:
+                    continue
+                d_, j_ = 0, mc_.end()
+                while j_ < len(body_):
+                    if body_[j_] in '([{':
+                        d_ += 1
+                    elif body_[j_] in ')]}':
+                        if d_ == 0:
+                            break
+                        d_ -= 1
+                    j_ += 1
+                out_.append(body_[pos_:mc_.start()])
+                out_.append('({ let verif_sp = %s(%s, *verif_st); *verif_st = verif_sp.1; verif_sp.0 })' % (prm_, body_[mc_.end():j_]))
+                pos_ = j_ + 1
+                k_ += 1
+            out_.append(body_[pos_:])
+            if not k_:
+                raise Undecided('anchor lost: `%s` is never called in %s::%s' % (prm_, container, name))
+            text = sig_ + ''.join(out_)
+            rewrites['R21'] = rewrites.get('R21', 0) + k_ + 1
+        if kind == 'state_passing_call':
+            # R21 (caller side): `//@state_passing_call F F_ST VAR STY` - `X.F(|P| { BODY })` where BODY assigns the captured local VAR ->
+            # `X.F_ST(|P, verif_st_in: STY| { let mut VAR = verif_st_in; BODY' }, &mut VAR)` with every `return E;` of BODY -> `return (E, VAR);`
+            f_, fst_, var_, sty_ = arg.split(None, 3)
+            sty_ = sty_.strip()
+            m_ = re.search(r'\.' + re.escape(f_) + r'\(\s*\|([A-Za-z0-9_,: ]*)\|\s*\{', text)
+            if not m_:
+                raise Undecided('anchor lost: no call `.%s(|..| {` in %s::%s' % (f_, container, name))
+            d_, j_ = 0, m_.end()
+            while j_ < len(text):
+                if text[j_] in '([{':
+                    d_ += 1
+                elif text[j_] in ')]}':
+                    if d_ == 0:
+                        break
+                    d_ -= 1
+                j_ += 1
+            cb_ = text[m_.end():j_]
+            if text[j_] != '}' or not re.match(r'\s*\)', text[j_ + 1:]) or re.search(r'\|[A-Za-z0-9_,: ]*\|', cb_):
+                raise Undecided('anchor lost: the closure of `.%s(..)` in %s::%s is not a block that is the only argument' % (f_, container, name))
+            if not re.search(r'(?<![A-Za-z0-9_.])' + re.escape(var_) + r'\s*=[^=]', cb_):
+                raise Undecided('anchor lost: the closure of `.%s(..)` in %s::%s does not assign `%s`' % (f_, container, name, var_))
+            if not re.search(r'\breturn\b[^;]*;\s*$', cb_):
+                raise Undecided('anchor lost: the closure of `.%s(..)` in %s::%s does not end with a `return` statement' % (f_, container, name))
+            cb2_, k_ = re.subn(r'\breturn\s+([^;]+);', lambda mm: 'return (%s, %s);' % (mm.group(1).strip(), var_), cb_)
+            close_ = j_ + 1 + re.match(r'\s*\)', text[j_ + 1:]).end()
+            text = (text[:m_.start()] + '.' + fst_ + '(|' + m_.group(1).strip() + ', verif_st_in: ' + sty_ + '| { let mut ' + var_ + ' = verif_st_in;' + cb2_
+                    + '}, &mut ' + var_ + ')' + text[close_:])
+            rewrites['R21'] = rewrites.get('R21', 0) + k_ + 1
+    for kind, arg, lines in subs:
         if kind == 'deref_operand':
             text, k = rw_deref_operand(text, arg.strip())
             if not k:
@@ -899,7 +980,7 @@ def weave_fn(src, container, name, nth, opts, subs, mode, sig_only=False):
     # collect sub-directives
     for kind, arg, lines in subs:
         body_text = '\n'.join(lines)
-        if kind in ('inst', 'rename_generic', 'desugar_by_ref', 'desugar_for', 'desugar_for_into', 'desugar_closure_patterns', 'model_adapters', 'deref_operand', 'call_rename', 'collect_as', 'hoist_for_pattern', 'assoc_type', 'panic_atomic', 'checked_index_total', 'wrapping_add_assign'):
+        if kind in ('inst', 'rename_generic', 'desugar_by_ref', 'desugar_for', 'desugar_for_into', 'desugar_closure_patterns', 'model_adapters', 'deref_operand', 'call_rename', 'state_passing', 'state_passing_call', 'collect_as', 'hoist_for_pattern', 'assoc_type', 'panic_atomic', 'checked_index_total', 'wrapping_add_assign'):
             continue
         if kind == 'attr':
             if not sig_only:
@@ -988,8 +1069,10 @@ def weave_fn(src, container, name, nth, opts, subs, mode, sig_only=False):
                         if d == 0:
                             break
                         d -= 1
+                    elif ch == ',' and d == 0:
+                        break       # (the closure is followed by another argument: R21)
                 j += 1
-            if j >= len(b.text) or b.text[j] != ')':
+            if j >= len(b.text) or b.text[j] not in '),':
                 raise Undecided('anchor lost: closure %d of %s::%s is not a last call argument' % (kk, container, name))
             b.add(h.end(), ' -> (ret: %s)\n%s\n{' % (rty, body_text))
             b.add(j, ' }')
